@@ -2377,8 +2377,8 @@ Proof.
   - pose proof (p_ring _ _ _ H Hu Hr) as Hwf.
     assert (Hwf1 : ring_wf s1) by (destruct Hwf as [A B C]; constructor; assumption).
     destruct (ring_push s1 id (p_pow _ _ _ H) Hu Hwf1 ltac:(rewrite Hri1; exact Hroom)) as (A & B & _).
-    rewrite A in E. injection E as <-. rewrite B, Hri1. reflexivity.
-  - unfold ctrl_reset in E. change (uring s1) with (uring s) in E. rewrite Hu in E. injection E as <-.
+    rewrite A in E. injection E as E. rewrite <- E. rewrite B, Hri1. reflexivity.
+  - unfold ctrl_reset in E. change (uring s1) with (uring s) in E. rewrite Hu in E. injection E as E. rewrite <- E.
     unfold ring_ids. cbn [uring set_queue set_slots s1 queue]. rewrite Hu. reflexivity.
 Qed.
 
